@@ -37,9 +37,6 @@ for size, cls in BOUNDARY:
                     size, size, "Some(%d)" % cls if cls is not None else "None"),
                 "12.d", profile="R", tier="quick" if quick else "thorough", timeout=900,
                 shape={"request": size, "slots_per_class": 1, "classes": 20}))
-hs.append(H("poolset_dispatch_9_A", F, "poolset_dispatch!(poolset_dispatch_9_A, 9, Some(1));",
-            "12.d", profile="A", tier="thorough", timeout=1800, mem_gb=16,
-            shape={"request": 9, "slots_per_class": 1, "classes": 20}))
 hs.append(H("poolset_contains_any_addr", F, "", "12.d", profile="R", timeout=900,
             shape={"address": "any of the 4096 offsets of the model arena", "slots_per_class": 1}))
 for ln, tier in ((0, "quick"), (3, "quick"), (9, "thorough")):
